@@ -141,7 +141,8 @@ def gen_main(outcome):
     a('    } else if (!strncmp(line, "force:", 6)) {')
     a("      S.state = atoi(line + 6);")
     a('    } else if (!strncmp(line, "seti:", 5)) {')
-    a("      int idx; long long v; sscanf(line + 5, \"%d:%lld\", &idx, &v);")
+    a("      int idx = atoi(line + 5); const char *vs = strchr(line + 5, ':') + 1;")
+    a("      long long v = (vs[0] == '-') ? strtoll(vs, NULL, 10) : (long long)strtoull(vs, NULL, 10);")
     a("      switch (idx) {")
     for i, o in enumerate(outs):
         if o.type in (T.INT, T.BOOL, T.ENUM):
